@@ -28,7 +28,7 @@ func genBase(combs []string) func(t *rapid.T) fk.Case {
 		if c.N == math.MaxInt && c.Comb == "SampleStream" {
 			c.N = n + 1 // the Sample functions are documented to use O(k) space
 		}
-		c.EWraps = rapid.SampledFrom([]int{0, 0, 0, 1, 2}).Draw(t, "ewraps")
+		c.EWraps = rapid.SampledFrom([]int{0, 0, 0, 1, 2, 3}).Draw(t, "ewraps")
 		c.LaxSources = rapid.IntRange(0, 3).Draw(t, "lax") == 0
 		if c.N < 1 && (c.Comb == "Chunk" || c.Comb == "Batch") {
 			c.N = 1
